@@ -15,6 +15,7 @@ import (
 	"strconv"
 	"strings"
 	"time"
+	"unicode/utf8"
 
 	"github.com/emersion/go-webdav/caldav"
 	"github.com/emersion/go-webdav/carddav"
@@ -307,7 +308,26 @@ func (t *tabs) Sx() string {
 	if t.std {
 		head = "htab"
 	}
-	return hx.L(head, ssTab("href_enc", t.hrefEnc), soTab("href_dec", t.hrefDec), ssTab("etag_enc", t.etagEnc),
+	// the part of strconv.IsPrint's table that C16's model of %q takes as a parameter: the
+	// printable runes above U+00FF of the tags that were quoted
+	seenHi := map[rune]bool{}
+	var his []int64
+	for e := range t.etagEnc {
+		for i := 0; i < len(e); {
+			r, w := utf8.DecodeRuneInString(e[i:])
+			i += w
+			if r > 0xFF && !(r == utf8.RuneError && w == 1) && strconv.IsPrint(r) && !seenHi[r] {
+				seenHi[r] = true
+				his = append(his, int64(r))
+			}
+		}
+	}
+	sort.Slice(his, func(i, j int) bool { return his[i] < his[j] })
+	ph := []string{"print_hi"}
+	for _, r := range his {
+		ph = append(ph, hx.I(r))
+	}
+	return hx.L(head, hx.L(ph...), ssTab("href_enc", t.hrefEnc), soTab("href_dec", t.hrefDec), ssTab("etag_enc", t.etagEnc),
 		soTab("etag_dec", t.etagDec), hx.L(te...), hx.L(td...), soTab("pay_enc", t.payEnc), soTab("pay_dec", t.payDec), hx.L(st...))
 }
 
